@@ -16,7 +16,7 @@ Z3_RLIMIT = int(os.environ.get('PYVC_Z3_RLIMIT', '40000000'))
 Z3_TIMEOUT_MS = int(os.environ.get('PYVC_Z3_TIMEOUT_MS', '600000'))
 CLI_RLIMIT = int(os.environ.get('PYVC_CLI_RLIMIT', '40000000'))
 CLI_TIMEOUT_S = int(os.environ.get('PYVC_CLI_TIMEOUT_S', '600'))
-CVC5_TLIMIT_S = int(os.environ.get('PYVC_CVC5_TLIMIT_S', '60'))
+CVC5_TLIMIT_S = int(os.environ.get('PYVC_CVC5_TLIMIT_S', '20'))
 
 
 def to_smt2(axioms, hyps, goal):
